@@ -503,6 +503,9 @@ func (m *MonC13) AfterTx(o *TxOutcome) {
 			lo.Sub(lo, res)
 			hi.Add(hi, res)
 			rep.Eval("C13.payout")
+			if E.Sign() > 0 {
+				rep.Sample(map[string]any{"observed": kind + " claim", "position": w.Name(c.Pos.Del) + "," + w.Name(c.Pos.Val) + "," + c.Pos.Denom, "reward_denom": d, "paid": c.Coins.AmountOf(d).String(), "entitlement_at_receipt": ratStr(E), "allowed": []string{ratStr(lo), ratStr(hi)}, "receipts": c.N})
+			}
 			if got.Cmp(lo) < 0 && got.Cmp(hi) <= 0 {
 				// recorded finding: the payout is truncated once per weight-change snapshot segment
 				nseg := 0
